@@ -155,18 +155,10 @@ def scanBytes (w h : Nat) (comps : List (Nat × Nat)) (ri : Nat) (coef : Nat →
   let mcusY := if single then ceilDiv (ceilDiv (h * c0.v) vmax) 8 else ceilDiv h (8 * vmax)
   let total := mcusX * mcusY
   let step := if ri == 0 then total else ri
-  let mut s : List Nat := []
-  let mut m := 0
-  let mut rst := 0
-  while m < total do
-    let m1 := min total (m + step)
-    match mcuBits f hmax vmax coef cis tabs mcusX m m1 true with
-    | none => return none
-    | some bits => s := s ++ Bits.segmentBytes bits
-    if m1 < total then
-      s := s ++ [0xFF, 0xD0 + rst % 8]
-      rst := rst + 1
-    m := m1
-  return some s
+  -- the restart intervals `[m, m1)`, their bits, and the framing the scan-level theorem of C03 is about
+  let ivs := (List.range ((total + step - 1) / step)).map (fun i => (i * step, min total ((i + 1) * step)))
+  match ivs.mapM (fun (m, m1) => mcuBits f hmax vmax coef cis tabs mcusX m m1 true) with
+  | none => return none
+  | some bitss => return some (Bits.joinRST (bitss.map Bits.segmentBytes) 0)
 
 end LJT.T81Enc
